@@ -18,18 +18,18 @@ def claim(prop, technique, text, note, ref):
 
 claim('C17', 'Coq proof (induction on fuel/lists, Z arithmetic with lia/nia) + differential evaluation of the model in coqc',
       'Theorems for all list lengths, map_step >= 1, reduce_step >= 2, associative reducers, all integer indices and all slices '
-      '(Props/C17.v); the block/tree/slice model is tied to jug.mapreduce by evaluating it on the inputs the real code ran on.',
+      '(Props/C17.v); the block/tree/slice model is tied to jug.mapreduce by evaluating it on the inputs the real code ran on.  Search beyond integers: plain and TaskGenerator-wrapped functions at every map step incl. 1 (D26); ==-equal values of different types with type-sensitive mappers; map over mapped sequences with differing steps followed by every index / slices / a third map; same-named mappers from two generated modules in one store; None / falsy mapped values and reducer results with associative reducers for which they are not neutral (first / last also tied to the model with the selecting reducer).',
       'Kernel + vm_compute; CPython slice.indices/range semantics formalised by hand (sampled against CPython every run); '
       'model hand-written, tied by differential cases; task functions deterministic; reducer associative.',
       'DESIGN.md sec. 3 C17')
 
-claim('C07', 'Coq proof (nested induction over the value universe, uniqueness of sorted permutations) + recorded sha1 chunk stream == model stream + cross-process digest comparison',
+claim('C07', 'Coq proof (nested induction over the value universe, uniqueness of sorted permutations) + recorded sha1 chunk stream == model stream + cross-process digest comparison + identifiers of generated jugfiles / a generated project re-loaded through its whole life in fresh interpreters with varied environments',
       'Theorem: for ANY hash function and digest order the chunk sequence fed to the hash is invariant under permuting set/frozenset/dict '
       'iteration order at any depth and under array layout (Props/C07.v); the executable stream is proved equal to that sequence when children '
       'are listed in digest order.  Tie: every chunk the real code feeds to sha1 is recorded in separate interpreters with different '
-      'PYTHONHASHSEED and compared with the model stream in coqc.',
+      'PYTHONHASHSEED and compared with the model stream in coqc.  Loading: generated jugfiles are loaded with the real jug.init ten ways per interpreter (relative / absolute / ./ / redundant components / other working directories) and a generated project (CompoundTask(Generator), tasklets, timed_path and cached_glob on relative paths, CustomHash / NoHash / NoLoad, TaskGenerator mappers in map / mapreduce / currymap, identity) is snapshotted before anything ran, with only the tasks inside the compounds stored, after everything ran, after cleanup, and after the directory was renamed / copied / reached through a symlink, by interpreters differing in PYTHONHASHSEED, environment variables, umask, argv, pid: Task.hash(), __jug_hash__() and hash_one() of every jugfile object must agree with each other and with the first snapshot.  Identifier-independence of what was hashed before in the interpreter is checked against a pristine forked child; known finding D24 (subclass instances pickled whole) is tolerated only under its chunk-tree classifier.',
       'Kernel + vm_compute; SHA-1 and pickle outside the model (digests symbolic; dict keys with distinct digests is a premise); '
-      'harness: value generator/realiser, recorder, interning.',
+      'harness: value generator/realiser, recorder, interning; the real hostname and the clock cannot be varied by the check (only $HOSTNAME and the moment of the run).',
       'DESIGN.md sec. 3 C07')
 claim('C08', 'Coq refutation witness + Coq proof that the length-delimited chunk stream is an injective prefix code (nested induction over the value universe) and that the real stream is its erasure + in-Coq classification of every observed collision + exhaustive bucketed pair search over structures and families of confusable invocations',
       'The injectivity statement is FALSE of the faithful model and of the code (Theorem C08_refuted; known finding D1, not repairable '
@@ -154,7 +154,7 @@ claim('C14', 'Coq proof (trace invariant of the loader for all staged programs a
       'Kernel + vm_compute; the loader theorems are about one worker, the many-workers theorems about the protocol with barrier edges (the reading of barriers as edges is a theorem for jugfiles without CompoundTask - C14_loading_is_waiting_for_barrier_edges, Proofs/LoaderExtraFacts.v: on any store holding sequential values the loader puts into alltasks exactly the tasks all of whose barrier/bvalue edges are stored - and is validated by the traces); premises: sequential evaluation succeeds, one value per identifier (tested per case), start store agrees with it, Python scoping; task identifiers are real hashes predicted with jug.task.Task.hash on stub functions; values integers mod 3 and pairs.',
       'DESIGN.md sec. 3 C14')
 claim('C18', 'Coq proof (compound = builder in place + one task with the probe hash; collapse; value through the reload-loop theorem; cleanup preserves what is loaded) + differential evaluation of the model in coqc against CompoundTaskGenerator / execute / cleanup / status on generated builders',
-      'Theorems (Props/C18.v) over Model/Loader.v for all builders (arbitrary staged programs: nested compounds, barriers/bvalue inside, tuple/constant results) and all stores: with no result under its hash a compound loads exactly as its builder written in place followed by one task that stores the value of the builder\'s result under that hash; after execute every compound\'s stored value is the sequential value of its builder\'s result; with a result it loads as ONE task and nothing of the builder, execute runs nothing, and cleanup (keep the hashes of loaded tasks) keeps the compound key with its value, drops every inner result, and leaves the load and check unchanged.  Tie: generated builders x start stores {empty, some/all inner, collapsed, only compounds, everything, random, non-sequential values} x random load/phase/execute/cleanup/status sequences on dict and file stores; alltasks by real hash, executed tasks, whole store and counts compared after every step.',
+      'Theorems (Props/C18.v) over Model/Loader.v for all builders (arbitrary staged programs: nested compounds, barriers/bvalue inside, tuple/constant results) and all stores: with no result under its hash a compound loads exactly as its builder written in place followed by one task that stores the value of the builder\'s result under that hash; after execute every compound\'s stored value is the sequential value of its builder\'s result; with a result it loads as ONE task and nothing of the builder, execute runs nothing, and cleanup (keep the hashes of loaded tasks) keeps the compound key with its value, drops every inner result, and leaves the load and check unchanged.  Tie: generated builders x start stores {empty, some/all inner, collapsed, only compounds, everything, random, non-sequential values} x random load/phase/execute/cleanup/status sequences on dict and file stores; alltasks by real hash, executed tasks, whole store and counts compared after every step.  For every loaded task, a collapsed compound included, Task.dependencies() is the set of tasks under its arguments (for the collapsed compound: the arguments of the call), checked against Model.Loader (atids_list (targs t)) at every `deps` step; `jug invalidate --target` and the shell invalidate() are part of the histories: what they remove equals Loader.invalidate; in particular the stored value of a collapsed compound goes when a task it was built from is invalidated (C18_collapsed_compound_keeps_its_arguments, C18_invalidate_reaches_collapsed_compound), and the following execute expands and recomputes it.',
       'Kernel + vm_compute; one worker; premises: C14_reload_loop hypotheses for the value theorem, Python scoping for cleanup; probe hash = Task(builder, args).hash() predicted with stub functions; values integers mod 3 and pairs; kwargs/list/dict results and raising builders not modelled.',
       'DESIGN.md sec. 3 C18')
 
